@@ -228,3 +228,25 @@ pub fn dotted_leaf_twin(method: &str, path: &str) -> u64 { m1(); m2() }
 #[instrument(fields(a.len = 1))]
 pub fn dotted_root(a: u64, b: u64) -> u64 { m1(); a + b + m2() }
 pub fn dotted_root_twin(a: u64, b: u64) -> u64 { m1(); a + b + m2() }
+
+// ---- legacy async-trait (<= 0.1.43) shape: an inner `async fn` called inside `Box::pin(..)`. The attribute instruments the
+// inner function, but the span is the *outer* function's: its name, and the outer parameters as fields.
+#[instrument]
+pub fn legacy_boxed(a: u64) -> std::pin::Pin<Box<dyn std::future::Future<Output = u64> + Send>> {
+    async fn __legacy_boxed(a: u64) -> u64 { m1(); let v = helper().await; m2(); a + v }
+    Box::pin(__legacy_boxed(a))
+}
+pub fn legacy_boxed_twin(a: u64) -> std::pin::Pin<Box<dyn std::future::Future<Output = u64> + Send>> {
+    async fn __legacy_boxed(a: u64) -> u64 { m1(); let v = helper().await; m2(); a + v }
+    Box::pin(__legacy_boxed(a))
+}
+
+#[instrument(level = "warn", target = "legacy::t")]
+pub fn legacy_boxed_opts(a: u64, b: u64) -> std::pin::Pin<Box<dyn std::future::Future<Output = u64> + Send>> {
+    async fn __inner_opts(a: u64, b: u64) -> u64 { m1(); if cond() { return m3(); } helper().await; a + b + m2() }
+    Box::pin(__inner_opts(a, b))
+}
+pub fn legacy_boxed_opts_twin(a: u64, b: u64) -> std::pin::Pin<Box<dyn std::future::Future<Output = u64> + Send>> {
+    async fn __inner_opts(a: u64, b: u64) -> u64 { m1(); if cond() { return m3(); } helper().await; a + b + m2() }
+    Box::pin(__inner_opts(a, b))
+}
